@@ -153,7 +153,40 @@ def strIndexAux (pat : List Char) : List Char → Nat → Option Nat
 
 def utf8Len (s : String) : Nat := s.utf8ByteSize
 
+/-- byte offset of the first occurrence (`strings.Index`; a valid UTF-8 needle only matches at rune boundaries) -/
+def byteIndexAux (pat : List Char) : List Char → Nat → Option Nat
+  | [], off => if pat.isEmpty then some off else none
+  | c :: t, off => if pat.isPrefixOf (c :: t) then some off else byteIndexAux pat t (off + c.utf8Size)
+
+/-- byte offset of the last occurrence (`strings.LastIndex`) -/
+def lastByteIndexAux (pat : List Char) : List Char → Nat → Option Nat → Option Nat
+  | [], off, best => if pat.isEmpty then some off else best
+  | c :: t, off, best =>
+    lastByteIndexAux pat t (off + c.utf8Size) (if pat.isPrefixOf (c :: t) then some off else best)
+
+/-- non-overlapping occurrences of a non-empty needle (`strings.Count`) -/
+def countAux (pat : List Char) : Nat → List Char → Nat
+  | 0, _ => 0
+  | _, [] => 0
+  | fuel + 1, c :: t =>
+    if pat.isPrefixOf (c :: t) then 1 + countAux pat fuel ((c :: t).drop pat.length) else countAux pat fuel t
+
+/-- `strings.ReplaceAll` with a non-empty needle -/
+def replaceAux (pat rep : List Char) : Nat → List Char → List Char
+  | 0, l => l
+  | _, [] => []
+  | fuel + 1, c :: t =>
+    if pat.isPrefixOf (c :: t) then rep ++ replaceAux pat rep fuel ((c :: t).drop pat.length) else c :: replaceAux pat rep fuel t
+
+def isAsciiSpace (c : Char) : Bool := c == ' ' || c == '\t' || c == '\n' || c == '\r' || c.toNat == 11 || c.toNat == 12
+
+/-- the functions modelled over character lists are kept away from very long receivers (a scenario that grows a string
+    exponentially is dropped, not slowed down) -/
+def longRecv (s : String) (f : String) : Bool :=
+  s.utf8ByteSize > 4096 && (f == "Count" || f == "Index" || f == "LastIndex" || f == "Repeat" || f == "Replace" || f == "Trim")
+
 def strMethod (s : String) (f : String) (args : List Val) : R Val :=
+  if longRecv s f then unmodelled "string function on a very long receiver" else
   match f, args with
   | "Len", [] => .ok (.int .int s.utf8ByteSize)
   | "Len", _ => evalErr "function Len requires no argument"
@@ -175,9 +208,32 @@ def strMethod (s : String) (f : String) (args : List Val) : R Val :=
       | .str a :: rest => if a == s then .ok (.bool true) else go rest
       | _ :: _ => evalErr "function StrIn requires string arguments"
     go as
-  | "Count", _ => unmodelled "Count" | "Index", _ => unmodelled "Index" | "LastIndex", _ => unmodelled "LastIndex"
-  | "Repeat", _ => unmodelled "Repeat" | "Replace", _ => unmodelled "Replace" | "Split", _ => unmodelled "Split"
-  | "Trim", _ => unmodelled "Trim" | "MatchString", _ => unmodelled "MatchString"
+  | "Count", [.str a] =>
+    .ok (.int .int (if a.toList.isEmpty then s.toList.length + 1 else countAux a.toList (s.toList.length + 1) s.toList))
+  | "Count", _ => evalErr "function Count requires 1 string argument"
+  | "Index", [.str a] => .ok (.int .int (match byteIndexAux a.toList s.toList 0 with | some i => (i : Int) | none => -1))
+  | "Index", _ => evalErr "function Index requires 1 string argument"
+  | "LastIndex", [.str a] =>
+    .ok (.int .int (match lastByteIndexAux a.toList s.toList 0 none with | some i => (i : Int) | none => -1))
+  | "LastIndex", _ => evalErr "function LastIndex requires 1 string argument"
+  | "Repeat", [.int _ k] =>
+    if k < 0 then unmodelled "Repeat with a negative count" else if k > 64 then unmodelled "large Repeat"
+    else .ok (.str (String.ofList ((List.replicate k.toNat s.toList).flatten)))
+  | "Repeat", [.uint _ k] =>
+    if k > 64 then unmodelled "large Repeat" else .ok (.str (String.ofList ((List.replicate k s.toList).flatten)))
+  | "Repeat", [.float _ _] => unmodelled "Repeat with a float count"
+  | "Repeat", _ => evalErr "function Repeat requires 1 numeric argument"
+  | "Replace", [.str a, .str b] =>
+    if a.toList.isEmpty then
+      .ok (.str (String.ofList (b.toList ++ s.toList.flatMap (fun c => c :: b.toList))))
+    else .ok (.str (String.ofList (replaceAux a.toList b.toList (s.toList.length + 1) s.toList)))
+  | "Replace", _ => evalErr "function Cmpare requires 2 string argument"
+  | "Trim", [] =>
+    if s.toList.all (fun c => c.toNat < 128) then
+      .ok (.str (String.ofList ((s.toList.dropWhile isAsciiSpace).reverse.dropWhile isAsciiSpace).reverse))
+    else unmodelled "unicode space"
+  | "Trim", _ => evalErr "function Trim requires no argument"
+  | "Split", _ => unmodelled "Split" | "MatchString", _ => unmodelled "MatchString"
   | _, _ => evalErr "call function is not supported for string"
 
 def nodeLen : Node → Option Nat
